@@ -100,8 +100,7 @@ def _mk_machine(col, max_n, raise_sig=None):
         @precondition(lambda self: not self.dead)
         @rule()
         def join_returns(self):
-            if self.ex.cur is not self.ex.real:
-                return  # closing a graph is a top-level operation
+            # also inside a region's sub-graph: its exiting block jumps out of the sub-graph, which is not "no successor"
             self._apply(["join_returns"])
 
         @precondition(lambda self: not self.dead)
